@@ -175,11 +175,11 @@ Qed.
 Print Assumptions C19_witness.
 
 (* GLUE to C18 and C14 (Proofs/Glue_quote.v, docs/Glue.md): the key function of this file is Model/Ident.v's code
-   (the one C18 ties to ident.py) and its decoder agrees with Model/Ident.v's on every key code() writes; off that
-   image the decoder here is NOT ident.decode (one-digit indexes only; Glue_ident_decode_disagreement_witness). *)
+   (the one C18 ties to ident.py), and its decoder IS Model/Ident.v's decode on every string (of_ident: an absent /
+   empty attribute read as the empty string). *)
 From PV Require Model.Ident Proofs.Ident_lemmas Proofs.Glue_quote.
 Theorem C19_cache_key_is_ident_code_of_C18 :
-  forall n, code (Glue_quote.toC n) = Ident.code n /\
-            (Ident_lemmas.wfb n -> exists m, Ident.decode (Ident.code n) = Ok m /\ decode (Ident.code n) = Ok (Glue_quote.toC m)).
-Proof. intros n. split; [exact (Glue_quote.code_same n)|exact (Glue_quote.decode_same_on_codes n)]. Qed.
+  (forall n, code (of_ident n) = Ident.code n) /\
+  (forall s, decode s = match Ident.decode s with Ok m => Ok (of_ident m) | Err e => Err e end).
+Proof. split; [exact Glue_quote.code_same|exact Glue_quote.decode_same]. Qed.
 Print Assumptions C19_cache_key_is_ident_code_of_C18.
